@@ -9,7 +9,12 @@ package msgpipeline
 // check may be referenced by several blocks), recording targets (atomic or per-recipient, some
 // refusing quarantined messages like target.remote), and one transaction driven the way the
 // SMTP endpoint (Start, AddRcpt…, Body, Commit|Abort) or the LMTP endpoint (…, BodyNonAtomic,
-// Commit) does.
+// Commit) does.  MsgMetadata is shared by pointer with whoever hands the message over, and a
+// MsgPipeline is itself a delivery target (`deliver_to &local_routing`, `reroute`): some cases
+// start with MsgMetadata.Quarantine already set (op token `Q`), and some ("nest" ops) put a second
+// REAL MsgPipeline - its own scripted checks, DMARC setting, destination blocks and recording
+// targets - behind destination blocks of the first one, so that the inner pipeline's own check
+// runner works on a message the outer pipeline's checks / DMARC policy may have flagged.
 //
 //   T2: the op line goes to the Lean model (Model/CheckRunner.lean); command outcomes, per-recipient
 //       results, quarantine flag, hand-offs seen by the targets and the per-state call logs are compared.
@@ -140,6 +145,8 @@ type c06Case struct {
 	rcpts   []c06Rcpt
 	scripts []c06Script
 	delays  [][4]int
+	q0      bool     // MsgMetadata.Quarantine is already set when Start is called
+	inner   *c06Case // the pipeline behind the target of kind "px"; inner.rcpts is its routing table (id:block)
 }
 
 func c06Ids(l []int) string {
@@ -169,6 +176,22 @@ func c06ParseIds(s string) []int {
 }
 
 func (c *c06Case) op() string {
+	f := c.fields()
+	if c.inner == nil {
+		if c.q0 {
+			f = append(f, "Q")
+		}
+		return "C06 run " + strings.Join(f, " ")
+	}
+	q := "-"
+	if c.q0 {
+		q = "Q"
+	}
+	return "C06 nest " + strings.Join(f, " ") + " " + q + " // " + strings.Join(c.inner.fields()[1:], " ")
+}
+
+// fields: mode dmarc global source blocks targets rcpts scripts delays
+func (c *c06Case) fields() []string {
 	var bl, rc, sc, dl []string
 	for _, b := range c.blocks {
 		bl = append(bl, c06Ids(b.checks)+"/"+c06Ids(b.targets))
@@ -195,8 +218,8 @@ func (c *c06Case) op() string {
 	for _, d := range c.delays {
 		dl = append(dl, fmt.Sprintf("%d%d%d%d", d[0], d[1], d[2], d[3]))
 	}
-	return strings.Join([]string{"C06", "run", c.mode, c.dmarc, c06Ids(c.global), c06Ids(c.source),
-		strings.Join(bl, ";"), strings.Join(c.tgts, ","), strings.Join(rc, ","), strings.Join(sc, ";"), strings.Join(dl, ";")}, " ")
+	return []string{c.mode, c.dmarc, c06Ids(c.global), c06Ids(c.source),
+		strings.Join(bl, ";"), strings.Join(c.tgts, ","), strings.Join(rc, ","), strings.Join(sc, ";"), strings.Join(dl, ";")}
 }
 
 func c06ParseV(s string) c06V { return c06V{s[0], s[1]} }
@@ -208,9 +231,83 @@ func c06Parse(op string) (c *c06Case, err error) {
 		}
 	}()
 	t := strings.Fields(op)
-	if len(t) != 11 || t[0] != "C06" || t[1] != "run" {
-		return nil, errors.New("not a C06 run op")
+	if len(t) < 2 || t[0] != "C06" {
+		return nil, errors.New("not a C06 op")
 	}
+	switch {
+	case t[1] == "run" && len(t) == 11:
+		return c06ParseFields(t[2:])
+	case t[1] == "run" && len(t) == 12 && t[11] == "Q":
+		c, err = c06ParseFields(t[2:11])
+		if err == nil {
+			c.q0 = true
+		}
+		return c, err
+	case t[1] == "nest" && len(t) == 21 && t[12] == "//" && (t[11] == "Q" || t[11] == "-"):
+		c, err = c06ParseFields(t[2:11])
+		if err != nil {
+			return nil, err
+		}
+		c.q0 = t[11] == "Q"
+		c.inner, err = c06ParseFields(append([]string{c.mode}, t[13:]...))
+		if err != nil {
+			return nil, err
+		}
+		return c, c06NestOK(c)
+	}
+	return nil, errors.New("not a C06 run/nest op")
+}
+
+// c06NestOK: what a nest op may contain (the same restrictions as Driver/C06.lean): the nested
+// pipeline is exactly the targets of kind px, the outer pipeline's own targets do not refuse, the
+// inner pipeline never refuses a command by itself (no reject verdict, no DMARC reject).
+func c06NestOK(c *c06Case) error {
+	px := 0
+	for _, k := range c.tgts {
+		switch k {
+		case "px":
+			px++
+		case "an", "pn":
+		default:
+			return errors.New("nest: outer target kind " + k)
+		}
+	}
+	if px != 1 {
+		return errors.New("nest: exactly one px target expected")
+	}
+	in := c.inner
+	if in.dmarc == "rej" {
+		return errors.New("nest: inner DMARC reject")
+	}
+	for _, k := range in.tgts {
+		if k == "px" {
+			return errors.New("nest: px inside the inner pipeline")
+		}
+	}
+	for _, s := range in.scripts {
+		vs := []c06V{s.conn, s.sender, s.body}
+		for _, v := range s.rcpt {
+			vs = append(vs, v)
+		}
+		for _, v := range vs {
+			if c06EffOf(v.result(0)) != "n" && c06EffOf(v.result(0)) != "q" {
+				return errors.New("nest: inner verdict " + v.String())
+			}
+		}
+	}
+	return nil
+}
+
+func c06ParseFields(t []string) (c *c06Case, err error) {
+	defer func() {
+		if r := recover(); r != nil {
+			err = fmt.Errorf("bad op: %v", r)
+		}
+	}()
+	if len(t) != 9 {
+		return nil, errors.New("bad field count")
+	}
+	t = append([]string{"C06", "run"}, t...)
 	c = &c06Case{mode: t[2], dmarc: t[3], global: c06ParseIds(t[4]), source: c06ParseIds(t[5])}
 	for _, b := range strings.Split(t[6], ";") {
 		p := strings.Split(b, "/")
@@ -434,10 +531,10 @@ func c06RcptId(addr string) int {
 	return id
 }
 
+// The recording targets look at the flag when they are given the body only (the RCPT-time look
+// of the real target.remote is TestVerifC06Remote's business): a recipient refused by the second
+// target of a block after the first one took it is C03/C04's matter, not this property's.
 func (d *c06Dlv) AddRcpt(ctx context.Context, to string, _ smtp.RcptOptions) error {
-	if d.t.refuseQ && d.meta.Quarantine {
-		return c06TgtErr{}
-	}
 	d.rcpts = append(d.rcpts, c06RcptId(to))
 	d.addrs = append(d.addrs, to)
 	return nil
@@ -501,6 +598,11 @@ type c06Info struct {
 	tgts      []*c06Target
 	decoyHits int
 	obs       string
+	outcome   string   // what has to agree between the two body paths
+	nested    bool     // the outer pipeline of a nest op
+	inner     *c06Info // the pipeline behind it (nil: it was never started)
+	otherQ    bool     // another pipeline the message went through returned a quarantine / had the DMARC policy quarantine
+	strayCall bool     // the inner pipeline's checks were called although nothing was handed to it
 }
 
 func c06Why(err error) string {
@@ -519,9 +621,21 @@ func c06Why(err error) string {
 	return "other:" + err.Error()
 }
 
-func c06Run(c *c06Case) *c06Info {
+// c06Pipe is one real MsgPipeline built from a case.
+type c06Pipe struct {
+	p        *MsgPipeline
+	rec      *c06Rec
+	decoyRec *c06Rec
+	tgts     []*c06Target
+}
+
+func (r *c06Rec) setCmd(k int) { r.mu.Lock(); r.cmd = k; r.mu.Unlock() }
+
+// c06Build assembles the pipeline of a case. routes: lookup key (domain or full address) -> block;
+// nested: what a target of kind px stands for.
+func c06Build(c *c06Case, routes map[string]int, nested module.DeliveryTarget) *c06Pipe {
 	rec := &c06Rec{inst: map[int]int{}, instCmd: map[[2]int]int{}}
-	info := &c06Info{c: c, rec: rec, status: map[int]bool{}}
+	pp := &c06Pipe{rec: rec}
 	checks := make([]module.Check, len(c.scripts))
 	for i := range c.scripts {
 		checks[i] = &c06Check{id: i, sc: &c.scripts[i], delays: c.delays[i], rec: rec}
@@ -534,21 +648,30 @@ func c06Run(c *c06Case) *c06Info {
 		return out
 	}
 	for i, k := range c.tgts {
-		info.tgts = append(info.tgts, &c06Target{id: i, partial: k[0] == 'p', refuseQ: k[1] == 'r'})
+		// the slot of a nested pipeline stays in the list (target ids are positions) and never gets a delivery
+		pp.tgts = append(pp.tgts, &c06Target{id: i, partial: k[0] == 'p', refuseQ: k[1] == 'r'})
 	}
-	perRcpt := map[string]*rcptBlock{}
+	blocks := make([]*rcptBlock, len(c.blocks))
 	for i, b := range c.blocks {
 		rb := &rcptBlock{checks: pick(b.checks)}
 		for _, t := range b.targets {
-			rb.targets = append(rb.targets, info.tgts[t])
+			if c.tgts[t] == "px" {
+				rb.targets = append(rb.targets, nested)
+			} else {
+				rb.targets = append(rb.targets, pp.tgts[t])
+			}
 		}
-		perRcpt[fmt.Sprintf("b%d.example", i)] = rb
+		blocks[i] = rb
+	}
+	perRcpt := map[string]*rcptBlock{}
+	for k, b := range routes {
+		perRcpt[k] = blocks[b]
 	}
 	refuse := &exterrors.SMTPError{Code: 550, EnhancedCode: exterrors.EnhancedCode{5, 1, 1}, Message: "no such block"}
 	// a source block for another sender: its check is not applicable to this message
-	decoyRec := &c06Rec{inst: map[int]int{}, instCmd: map[[2]int]int{}}
+	pp.decoyRec = &c06Rec{inst: map[int]int{}, instCmd: map[[2]int]int{}}
 	decoySc := c06Script{conn: c06V{'1', 'r'}, sender: c06V{'1', 'r'}, body: c06V{'1', 'r'}, rcpt: map[int]c06V{}}
-	decoy := &c06Check{id: 99, sc: &decoySc, rec: decoyRec}
+	decoy := &c06Check{id: 99, sc: &decoySc, rec: pp.decoyRec}
 	zones := map[string]mockdns.Zone{}
 	switch c.dmarc {
 	case "pass":
@@ -562,7 +685,7 @@ func c06Run(c *c06Case) *c06Info {
 	if c.dmarc != "off" {
 		globalChecks = append(globalChecks, c06AuthCheck{})
 	}
-	p := MsgPipeline{
+	pp.p = &MsgPipeline{
 		msgpipelineCfg: msgpipelineCfg{
 			globalChecks: globalChecks,
 			perSource: map[string]sourceBlock{
@@ -579,9 +702,52 @@ func c06Run(c *c06Case) *c06Info {
 		Resolver: &mockdns.Resolver{Zones: zones},
 		Log:      log.Logger{Out: log.NopOutput{}},
 	}
+	return pp
+}
+
+func c06Run(c *c06Case) *c06Info {
+	routes := map[string]int{}
+	for i := range c.blocks {
+		routes[fmt.Sprintf("b%d.example", i)] = i
+	}
+	var ip *c06Pipe
+	var nested module.DeliveryTarget
+	hasNest := func(blk int) bool { return false }
+	if c.inner != nil {
+		// the inner pipeline routes by full address: its own block for every recipient id
+		iroute := map[int]int{}
+		for _, r := range c.inner.rcpts {
+			iroute[r.id] = r.blk
+		}
+		ir := map[string]int{}
+		for _, r := range c.rcpts {
+			ir[c06Addr(r.id, r.blk)] = iroute[r.id]
+		}
+		ip = c06Build(c.inner, ir, nil)
+		nested = ip.p
+		hasNest = func(blk int) bool {
+			for _, t := range c.blocks[blk].targets {
+				if c.tgts[t] == "px" {
+					return true
+				}
+			}
+			return false
+		}
+	}
+	op := c06Build(c, routes, nested)
+	rec := op.rec
+	info := &c06Info{c: c, rec: rec, tgts: op.tgts, status: map[int]bool{}, nested: c.inner != nil}
+	p := op.p
 	ctx := context.Background()
-	meta := &module.MsgMetadata{ID: "verif", DontTraceSender: true, OriginalFrom: "sender@example.org"}
-	setCmd := func(k int) { rec.mu.Lock(); rec.cmd = k; rec.mu.Unlock() }
+	meta := &module.MsgMetadata{ID: "verif", DontTraceSender: true, OriginalFrom: "sender@example.org", Quarantine: c.q0}
+	var handed []c06Rcpt // what the nested pipeline was given, in order
+	setCmd := func(k int) {
+		rec.setCmd(k)
+		if ip != nil {
+			// commands as the inner pipeline sees them: its k-th AddRcpt (its Start runs inside the first), then the body
+			ip.rec.setCmd(len(handed) + 1)
+		}
+	}
 	setCmd(0)
 	delivery, err := p.Start(ctx, meta, "sender@example.org")
 	if err != nil {
@@ -598,6 +764,9 @@ func c06Run(c *c06Case) *c06Info {
 			} else {
 				info.rcptWhy = append(info.rcptWhy, "")
 				anyAcc = true
+				if hasNest(r.blk) {
+					handed = append(handed, c06Rcpt{r.id, 0})
+				}
 			}
 		}
 		setCmd(len(c.rcpts) + 1)
@@ -673,9 +842,79 @@ func c06Run(c *c06Case) *c06Info {
 		}
 	}
 	info.finalQ = meta.Quarantine
-	info.decoyHits = len(decoyRec.calls)
+	info.decoyHits = len(op.decoyRec.calls)
 	info.obs = c06Obs(info)
+	info.outcome = c06CheckOutcome(info)
+	if ip != nil {
+		c06Inner(info, ip, handed)
+	}
 	return info
+}
+
+func c06QuarantineReturned(in *c06Info) bool {
+	if in.c.dmarc == "quar" && in.bodyKind != "none" && in.bodyKind != "chk" && !in.startRef {
+		return true
+	}
+	for _, call := range in.rec.calls {
+		if call.eff == "q" {
+			return true
+		}
+	}
+	return false
+}
+
+// c06Inner: the transaction as the nested pipeline saw it. A nest op's inner pipeline never refuses
+// a command itself, so it was handed exactly the accepted recipients of the outer blocks that list
+// it; it was shown the body iff the outer pipeline's checks and DMARC policy let DATA through.
+func c06Inner(out *c06Info, ip *c06Pipe, handed []c06Rcpt) {
+	c := out.c
+	if len(handed) == 0 {
+		out.strayCall = len(ip.rec.calls) > 0 || len(ip.decoyRec.calls) > 0
+		out.obs += " || in: -"
+		out.outcome += " || in: -"
+		return
+	}
+	iroute := map[int]int{}
+	for _, r := range c.inner.rcpts {
+		iroute[r.id] = r.blk
+	}
+	ic := c06Clone(c.inner)
+	ic.mode = c.mode
+	ic.rcpts = nil
+	for _, h := range handed {
+		ic.rcpts = append(ic.rcpts, c06Rcpt{h.id, iroute[h.id]})
+	}
+	in := &c06Info{c: ic, rec: ip.rec, tgts: ip.tgts, status: map[int]bool{}}
+	in.rcptRef = make([]bool, len(handed))
+	in.rcptWhy = make([]string, len(handed))
+	ran := !out.startRef && (out.bodyKind == "ok" || out.bodyKind == "tgt")
+	switch {
+	case !ran:
+		in.bodyKind = "none"
+	case c.mode == "smtp" && out.bodyKind == "tgt":
+		in.bodyKind = "tgt" // the outer pipeline's own targets never refuse
+	default:
+		in.bodyKind = "ok"
+	}
+	for _, h := range handed {
+		switch {
+		case !ran:
+			in.status[h.id] = false
+		case c.mode == "smtp":
+			in.status[h.id] = in.bodyKind == "ok"
+		default:
+			in.status[h.id] = out.status[h.id]
+		}
+	}
+	in.finalQ = out.finalQ
+	in.decoyHits = len(ip.decoyRec.calls)
+	in.obs = c06Obs(in)
+	in.outcome = c06CheckOutcome(in)
+	out.inner = in
+	out.obs += " || in: " + in.obs
+	out.outcome += " || in: " + in.outcome
+	in.otherQ = c.q0 || c06QuarantineReturned(out)
+	out.otherQ = c06QuarantineReturned(in)
 }
 
 // c06Obs renders the canonical observation (the same format as Driver/C06.lean showObs).
@@ -732,11 +971,16 @@ func c06Obs(in *c06Info) string {
 			for _, r := range rs {
 				p = append(p, strconv.Itoa(r))
 			}
-			q := "0"
+			q := ":0"
 			if d.bodyQ {
-				q = "1"
+				q = ":1"
 			}
-			del = append(del, fmt.Sprintf("%d:%s:%s", t.id, strings.Join(p, "+"), q))
+			if in.nested {
+				// a quarantine by the nested pipeline's own checks comes before or after this
+				// target is served (map order): the flag it saw is the monitor's business only
+				q = ""
+			}
+			del = append(del, fmt.Sprintf("%d:%s%s", t.id, strings.Join(p, "+"), q))
 		}
 	}
 	q := "0"
@@ -789,9 +1033,7 @@ func c06Has(l []int, x int) bool {
 	return false
 }
 
-func c06Monitor(out *vh.Out, op string, in *c06Info) {
-	c := in.c
-	odd := false
+func c06Odd(c *c06Case) bool {
 	for _, s := range c.scripts {
 		vs := []c06V{s.conn, s.sender, s.body}
 		for _, v := range s.rcpt {
@@ -799,10 +1041,89 @@ func c06Monitor(out *vh.Out, op string, in *c06Info) {
 		}
 		for _, v := range vs {
 			if v.proper() == "?" {
-				odd = true
+				return true
 			}
 		}
 	}
+	return false
+}
+
+// c06Must: from the script and the routing alone (proper verdicts only) - must DATA be refused,
+// must the message be flagged when the targets get it. rcptRef: which RCPT commands were refused.
+func c06Must(c *c06Case, rcptRef []bool) (mustBody, mustQ bool) {
+	V := func(ci int, stage string) string { return c.scripts[ci].at(stage).proper() }
+	gs := append(append([]int(nil), c.global...), c.source...)
+	mustBody = c.dmarc == "rej"
+	// flagged by a check or the DMARC policy of this pipeline, or already flagged when this pipeline
+	// got the message (by the pipeline it is a target of): the flag is never taken back
+	mustQ = c.dmarc == "quar" || c.q0
+	seenBlk := map[int]bool{}
+	for _, ci := range gs {
+		if V(ci, "b") == "r" {
+			mustBody = true
+		}
+		if V(ci, "c") == "q" || V(ci, "s") == "q" || V(ci, "b") == "q" {
+			mustQ = true
+		}
+	}
+	for k, r := range c.rcpts {
+		if k >= len(rcptRef) || rcptRef[k] {
+			continue
+		}
+		for _, ci := range append(append([]int(nil), gs...), c.blocks[r.blk].checks...) {
+			if V(ci, fmt.Sprintf("r%d", r.id)) == "q" {
+				mustQ = true
+			}
+		}
+		if seenBlk[r.blk] {
+			continue
+		}
+		seenBlk[r.blk] = true
+		for _, ci := range c.blocks[r.blk].checks {
+			if V(ci, "b") == "r" {
+				mustBody = true
+			}
+			if V(ci, "c") == "q" || V(ci, "s") == "q" || V(ci, "b") == "q" {
+				mustQ = true
+			}
+		}
+	}
+	return
+}
+
+// c06MonitorNest: both pipelines of a nest op. Every rule is evaluated for each pipeline on its own
+// transaction; what ties them: the message the inner pipeline gets is flagged whenever a check or
+// the DMARC policy of the outer pipeline quarantines, so every target behind the inner pipeline
+// has to see the flag and one that refuses quarantined messages has to refuse - whatever the inner
+// pipeline's own checks say.  (Not demanded: that the outer pipeline's own targets see a flag
+// raised by the INNER pipeline's checks - those give their verdict when the inner body stage
+// runs, which may be after the outer targets were served.)
+func c06MonitorNest(out *vh.Out, op string, in *c06Info) {
+	c06Monitor(out, op, in)
+	if in.strayCall {
+		out.Violation("C06/inapplicable-check-called", op, "checks of the nested pipeline were called although no recipient was handed to it")
+	}
+	if in.inner == nil {
+		return
+	}
+	ii := in.inner
+	if !c06Odd(in.c) && !in.startRef {
+		mustBody, mustQ := c06Must(in.c, in.rcptRef)
+		if mustQ && !mustBody && ii.bodyKind != "none" {
+			out.Stat("nest.flagged-by-outer")
+			if _, own := c06Must(ii.c, ii.rcptRef); !own {
+				out.Stat("nest.flagged-by-outer-only")
+			}
+		}
+		// the message as the inner pipeline gets it
+		ii.c.q0 = mustQ && !mustBody
+	}
+	c06Monitor(out, op, ii)
+}
+
+func c06Monitor(out *vh.Out, op string, in *c06Info) {
+	c := in.c
+	odd := c06Odd(c)
 	V := func(ci int, stage string) string { return c.scripts[ci].at(stage).proper() }
 	gs := append(append([]int(nil), c.global...), c.source...)
 	app := func(r c06Rcpt) []int { return append(append([]int(nil), gs...), c.blocks[r.blk].checks...) }
@@ -871,39 +1192,7 @@ func c06Monitor(out *vh.Out, op string, in *c06Info) {
 			}
 		}
 		if dataRan {
-			mustBody := c.dmarc == "rej"
-			mustQ := c.dmarc == "quar"
-			seenBlk := map[int]bool{}
-			for _, ci := range gs {
-				if V(ci, "b") == "r" {
-					mustBody = true
-				}
-				if V(ci, "c") == "q" || V(ci, "s") == "q" || V(ci, "b") == "q" {
-					mustQ = true
-				}
-			}
-			for k, r := range c.rcpts {
-				if in.rcptRef[k] {
-					continue
-				}
-				for _, ci := range app(r) {
-					if V(ci, fmt.Sprintf("r%d", r.id)) == "q" {
-						mustQ = true
-					}
-				}
-				if seenBlk[r.blk] {
-					continue
-				}
-				seenBlk[r.blk] = true
-				for _, ci := range c.blocks[r.blk].checks {
-					if V(ci, "b") == "r" {
-						mustBody = true
-					}
-					if V(ci, "c") == "q" || V(ci, "s") == "q" || V(ci, "b") == "q" {
-						mustQ = true
-					}
-				}
-			}
+			mustBody, mustQ := c06Must(c, in.rcptRef)
 			if mustBody {
 				if in.bodyKind != "chk" && in.bodyKind != "dmarc" {
 					out.Violation("C06/reject-not-enforced", op, "an applicable check (or the DMARC policy) rejects the message at the body stage, DATA result: "+in.bodyKind)
@@ -913,13 +1202,22 @@ func c06Monitor(out *vh.Out, op string, in *c06Info) {
 				}
 			}
 			if mustQ && !mustBody {
+				why, where := "an applicable check (or the DMARC policy) quarantines", ""
+				if c.q0 {
+					why = "the message was flagged as quarantined before this pipeline got it (or: " + why + ")"
+				}
+				sigF, sigR := "C06/quarantine-not-flagged", "C06/quarantined-message-relayed"
+				if !in.nested && strings.HasPrefix(op, "C06 nest ") {
+					why, where = "a check or the DMARC policy of a pipeline the message went through quarantines", " behind the nested pipeline"
+					sigF, sigR = "C06/nested-quarantine-not-flagged", "C06/nested-quarantined-message-relayed"
+				}
 				for _, t := range in.tgts {
 					for _, d := range t.dlvs {
 						if d.bodySeen && !d.bodyQ {
-							out.Violation("C06/quarantine-not-flagged", op, fmt.Sprintf("an applicable check (or the DMARC policy) quarantines, target %d saw the message without the flag", t.id))
+							out.Violation(sigF, op, fmt.Sprintf("%s, target %d%s saw the message without the flag", why, t.id, where))
 						}
 						if d.bodySeen && d.t.refuseQ && len(d.accepted) > 0 {
-							out.Violation("C06/quarantined-message-relayed", op, fmt.Sprintf("target %d (refuses quarantined messages) took the message", t.id))
+							out.Violation(sigR, op, fmt.Sprintf("%s, target %d%s (refuses quarantined messages) took the message", why, t.id, where))
 						}
 					}
 				}
@@ -985,7 +1283,7 @@ func c06Monitor(out *vh.Out, op string, in *c06Info) {
 			out.Violation("C06/refused-without-reject", op, "DATA refused by DMARC without a reject policy")
 		}
 		if in.finalQ {
-			why := c.dmarc == "quar"
+			why := c.dmarc == "quar" || c.q0 || in.otherQ
 			for _, call := range in.rec.calls {
 				if call.eff == "q" {
 					why = true
@@ -1089,6 +1387,37 @@ func c06CheckOutcome(in *c06Info) string {
 
 func c06Stats(out *vh.Out, in *c06Info) {
 	c := in.c
+	if in.nested {
+		out.Stat("nest")
+		if in.inner == nil {
+			out.Stat("nest.inner.not-reached")
+		} else {
+			ii := in.inner
+			out.Stat("nest.inner.body." + ii.bodyKind)
+			out.Stat(fmt.Sprintf("nest.inner.rcpts.%d", len(ii.c.rcpts)))
+			out.Stat(fmt.Sprintf("nest.inner.checks.%d", len(ii.c.scripts)))
+			if ii.finalQ && !ii.otherQ {
+				out.Stat("nest.inner.flagged-by-inner-only")
+			}
+			refusing := false
+			for _, t := range ii.tgts {
+				for _, d := range t.dlvs {
+					if d.bodySeen && t.refuseQ {
+						refusing = true
+					}
+				}
+			}
+			if refusing {
+				out.Stat("nest.inner.refusing-target-got-body")
+			}
+			for _, call := range ii.rec.calls {
+				out.Stat("nest.inner.verdict." + call.eff)
+			}
+		}
+	}
+	if c.q0 {
+		out.Stat("preflagged")
+	}
 	out.Stat("mode." + c.mode)
 	out.Stat("dmarc." + c.dmarc)
 	out.Stat(fmt.Sprintf("checks.%d", len(c.scripts)))
@@ -1194,6 +1523,9 @@ func c06Clone(c *c06Case) *c06Case {
 		n.scripts = append(n.scripts, c06Script{s.conn, s.sender, s.body, m})
 	}
 	n.delays = append([][4]int(nil), c.delays...)
+	if c.inner != nil {
+		n.inner = c06Clone(c.inner)
+	}
 	return &n
 }
 
@@ -1201,7 +1533,7 @@ func c06One(out *vh.Out, c *c06Case) *c06Info {
 	op := c.op()
 	in := c06Run(c)
 	out.Corr(op, in.obs)
-	c06Monitor(out, op, in)
+	c06MonitorNest(out, op, in)
 	c06Stats(out, in)
 	return in
 }
@@ -1220,7 +1552,7 @@ func c06CaseRun(out *vh.Out, c *c06Case, companions bool) {
 		o.mode = "smtp"
 	}
 	other := c06One(out, o)
-	if c06CheckOutcome(base) != c06CheckOutcome(other) {
+	if base.outcome != other.outcome {
 		out.Violation("C06/smtp-lmtp-differ", op, "the two body paths disagree: "+c.mode+": "+base.obs+" || "+o.mode+": "+other.obs)
 	}
 	// other completion orders (derived from the op line, so a replay repeats them)
@@ -1234,6 +1566,13 @@ func c06CaseRun(out *vh.Out, c *c06Case, companions bool) {
 		for i := range v.delays {
 			for j := 0; j < 4; j++ {
 				v.delays[i][j] = r.Intn(4)
+			}
+		}
+		if v.inner != nil {
+			for i := range v.inner.delays {
+				for j := 0; j < 4; j++ {
+					v.inner.delays[i][j] = r.Intn(4)
+				}
 			}
 		}
 		if v.op() == op {
@@ -1254,11 +1593,16 @@ func c06CaseRun(out *vh.Out, c *c06Case, companions bool) {
 		}
 		return v
 	}
-	for i := range ig.scripts {
-		s := &ig.scripts[i]
-		s.conn, s.sender, s.body = strip(s.conn), strip(s.sender), strip(s.body)
-		for k, v := range s.rcpt {
-			s.rcpt[k] = strip(v)
+	for _, cc := range []*c06Case{ig, ig.inner} {
+		if cc == nil {
+			continue
+		}
+		for i := range cc.scripts {
+			s := &cc.scripts[i]
+			s.conn, s.sender, s.body = strip(s.conn), strip(s.sender), strip(s.body)
+			for k, v := range s.rcpt {
+				s.rcpt[k] = strip(v)
+			}
 		}
 	}
 	if changed {
@@ -1272,7 +1616,85 @@ func c06CaseRun(out *vh.Out, c *c06Case, companions bool) {
 
 // ---------------------------------------------------------------- generator
 
+// c06Opt: what a generated pipeline may contain.
+type c06Opt struct {
+	big    bool
+	noOdd  bool // only the property's four verdicts
+	noRej  bool // no reject verdicts, no DMARC reject (the inner pipeline of a nest op)
+	ids    int  // recipient ids 1..ids have to have a route and verdicts (0: from the envelope)
+	fewQ   bool // quarantine verdicts are the exception
+	manyRQ bool // half of the targets refuse quarantined messages
+}
+
 func c06Gen(r *vh.Rng, big bool) *c06Case {
+	c := c06GenOpt(r, c06Opt{big: big})
+	// the message may come flagged: this pipeline as the target of another one, or an endpoint that flags
+	c.q0 = r.Chance(12)
+	return c
+}
+
+// c06GenNest: a pipeline behind destination blocks of another pipeline.
+func c06GenNest(r *vh.Rng, big bool) *c06Case {
+	c := c06GenOpt(r, c06Opt{big: big, noOdd: true})
+	for i := range c.tgts {
+		c.tgts[i] = c.tgts[i][:1] + "n"
+	}
+	px := len(c.tgts)
+	c.tgts = append(c.tgts, "px")
+	some := false
+	for !some {
+		for b := range c.blocks {
+			if c06Has(c.blocks[b].targets, px) || !r.Chance(60) {
+				continue
+			}
+			some = true
+			switch r.Intn(3) {
+			case 0: // as in the default configuration: the block only hands over
+				c.blocks[b].targets = []int{px}
+			case 1:
+				c.blocks[b].targets = append(c.blocks[b].targets, px)
+			default:
+				c.blocks[b].targets = append([]int{px}, c.blocks[b].targets...)
+			}
+		}
+	}
+	maxId := 0
+	for _, rc := range c.rcpts {
+		if rc.id > maxId {
+			maxId = rc.id
+		}
+	}
+	if maxId < 3 {
+		maxId = 3
+	}
+	// make the interesting half likely: some check of the outer pipeline (or its DMARC policy) quarantines
+	if r.Chance(55) {
+		if r.Chance(25) {
+			c.dmarc = "quar"
+		} else {
+			ci := r.Intn(len(c.scripts))
+			q := c06V{'1', 'q'}
+			switch r.Intn(4) {
+			case 0:
+				c.scripts[ci].conn = q
+			case 1:
+				c.scripts[ci].sender = q
+			case 2:
+				c.scripts[ci].body = q
+			default:
+				c.scripts[ci].rcpt[c.rcpts[r.Intn(len(c.rcpts))].id] = q
+			}
+		}
+	}
+	c.q0 = r.Chance(6)
+	in := c06GenOpt(r, c06Opt{noOdd: true, noRej: true, ids: maxId, fewQ: true, manyRQ: true})
+	in.mode = c.mode
+	c.inner = in
+	return c
+}
+
+func c06GenOpt(r *vh.Rng, o c06Opt) *c06Case {
+	big := o.big
 	c := &c06Case{mode: r.Pick("smtp", "lmtp")}
 	switch x := r.Intn(10); {
 	case x < 6:
@@ -1284,6 +1706,12 @@ func c06Gen(r *vh.Rng, big bool) *c06Case {
 	default:
 		c.dmarc = "rej"
 	}
+	if o.noRej && c.dmarc == "rej" {
+		c.dmarc = "pass"
+	}
+	if o.fewQ && c.dmarc == "quar" && r.Chance(70) {
+		c.dmarc = "off"
+	}
 	nC := 1 + r.Intn(4)
 	nB := 1 + r.Intn(3)
 	nT := 1 + r.Intn(3)
@@ -1293,7 +1721,11 @@ func c06Gen(r *vh.Rng, big bool) *c06Case {
 	}
 	for i := 0; i < nT; i++ {
 		k := r.Pick("a", "p")
-		if r.Chance(25) {
+		pr := 25
+		if o.manyRQ {
+			pr = 50
+		}
+		if r.Chance(pr) {
 			k += "r"
 		} else {
 			k += "n"
@@ -1349,6 +1781,9 @@ func c06Gen(r *vh.Rng, big bool) *c06Case {
 	if nR > 3 {
 		maxId = nR
 	}
+	if o.ids > maxId {
+		maxId = o.ids
+	}
 	blkOf := map[int]int{}
 	for i := 1; i <= maxId; i++ {
 		blkOf[i] = r.Intn(nB)
@@ -1362,11 +1797,27 @@ func c06Gen(r *vh.Rng, big bool) *c06Case {
 		used[id] = true
 		c.rcpts = append(c.rcpts, c06Rcpt{id, blkOf[id]})
 	}
+	if o.ids > 0 {
+		// not an envelope but the routing table: every id once
+		c.rcpts = nil
+		for i := 1; i <= maxId; i++ {
+			c.rcpts = append(c.rcpts, c06Rcpt{i, blkOf[i]})
+		}
+	}
 	// verdicts
 	pRej := []int{0, 3, 8, 20}[r.Intn(4)]
 	pQ := []int{0, 5, 15, 30}[r.Intn(4)]
 	pIgn := []int{0, 10, 25}[r.Intn(3)]
 	pOdd := []int{0, 0, 0, 6}[r.Intn(4)]
+	if o.noOdd {
+		pOdd = 0
+	}
+	if o.noRej {
+		pRej = 0
+	}
+	if o.fewQ {
+		pQ = []int{0, 0, 0, 10}[r.Intn(4)]
+	}
 	gen := func() c06V {
 		x := r.Intn(100)
 		switch {
@@ -1414,7 +1865,7 @@ func TestVerifC06Pipeline(t *testing.T) {
 	defer out.Close()
 	if ops := vh.Replay(); ops != nil {
 		for _, op := range ops {
-			if !strings.HasPrefix(op, "C06 run ") {
+			if !strings.HasPrefix(op, "C06 run ") && !strings.HasPrefix(op, "C06 nest ") {
 				continue
 			}
 			c, err := c06Parse(op)
@@ -1428,7 +1879,12 @@ func TestVerifC06Pipeline(t *testing.T) {
 	r := vh.NewRng(vh.Seed() + 606 + uint64(len(tag))*7919)
 	n := vh.N(400)
 	for i := 0; i < n; i++ {
-		c := c06Gen(r, vh.Thorough())
+		var c *c06Case
+		if r.Chance(15) {
+			c = c06GenNest(r, vh.Thorough())
+		} else {
+			c = c06Gen(r, vh.Thorough())
+		}
 		if c2, err := c06Parse(c.op()); err != nil || c2.op() != c.op() {
 			t.Fatalf("op line does not round-trip: %s", c.op())
 		}
